@@ -16,7 +16,7 @@ RULE = ("one case = (model ARZ/AVZ/ZHS, shower EM/hadronic/mixed, energy 1e-3..1
         "{0,0.05..40 deg} on either side or a special angle in [-pi,pi], distance 1 m..10 km) evaluated under the eight "
         "relations (about 14 model executions); non-trivial = the reference pulse is non-zero and finite so that the "
         "relations compare real pulses; distinct = hash of the case")
-ASSUMPTIONS = ["ARZ may place its pulse with a 22 ps jitter (two int() truncations on its internal fine grid of <= 10 ps): |dv| <= 2.2e-11 max|diff v|/dt + 1e-6 peak", "the shower time t0 lies inside the time grid (15 % margin), also after the whole-sample shift",
+ASSUMPTIONS = ["ARZ may place its pulse with a 22 ps jitter (two int() truncations on its internal fine grid of <= 10 ps): |dv| <= 2.2e-11 max|diff v|/dt + 1e-6 peak", "the reference shower time t0 lies inside the time grid (15 % margin); whole-sample moves also lead up to min(40, N/2 - 3) samples outside it",
                "peak monotonicity is decided only between pulses resolved by >= 4 samples and offsets >= x2 and >= 1 degree apart, and a rise of the sampled peak below 25 % is not counted",
                "ARZ offsets below 1e-3 rad (other than exactly on the cone) are not generated (cost of the internal convolution)"]
 BUDGET = {"quick": 900, "thorough": 7200}
@@ -130,16 +130,27 @@ def run_case(case):
     slope = float(np.max(np.abs(np.diff(ref)))) / sc
     v.close("unchanged when grid and shower time are shifted together", float(np.max(np.abs(ref - joint))) / sc, 1e-6 + jit / sc + cond * slope * 4,
             shift=sh, model=case["model"])
-    # (4) whole-sample shift of the shower time alone
-    # the shower time stays inside the time grid (15 % margin); shower times outside the window are not generated
+    # (4) whole-sample shift of the shower time alone: inside the grid, and (one case in three) across an end of the grid to a
+    # shower time up to 40 samples outside it, where only the tail / the precursor of the pulse is left in the window
     k0 = case["t0_frac"] * N
     m_lo, m_hi = int(np.ceil(0.15 * N - k0)), int(np.floor(0.85 * N - k0))
     m = int(rng.integers(max(m_lo, -40), min(m_hi, 40) + 1))
-    if m != 0:
+    moves = [(m, "inside the grid")]
+    if rng.random() < 0.34:
+        # ... but no farther than half a window: beyond that the models return zeros by design, because the periodic image
+        # of their FFT grid would be nearer to the window than the pulse itself
+        beyond = int(rng.integers(1, max(2, min(41, N // 2 - 2))))
+        moves.append(((-int(np.floor(k0)) - beyond) if rng.random() < 0.5 else (N - int(np.floor(k0)) + beyond - 1), "to a shower time outside the grid"))
+    for m, where in moves:
+        if m == 0:
+            continue
         moved = run(t_0=t0 + m * dt)
         lo, hi = (m, N - 1) if m > 0 else (0, N - 1 + m)
+        if hi - lo < 3:
+            continue
         d5 = float(np.max(np.abs(moved[lo:hi] - ref[lo - m:hi - m])))
-        v.close("moves by whole samples when the shower time moves by whole samples", d5 / sc, 1e-6 + jit / sc + cond * slope * 4, m=m, model=case["model"])
+        v.check(bool(np.all(np.isfinite(moved))), "field is finite everywhere, one value per sample", shape=list(moved.shape), nonfinite=int(np.sum(~np.isfinite(moved))), shower_time=where)
+        v.close("moves by whole samples when the shower time moves by whole samples", d5 / sc, 1e-6 + jit / sc + cond * slope * 4, m=m, model=case["model"], shower_time=where)
     # (7) on the cone, EM showers: proportional to the energy
     if case["shower"] == "em":
         f_ = 3.7
@@ -191,3 +202,7 @@ def kf_arz_low_energy_hadronic(case, viol):
     had = {"em": 0.0, "had": 1.0, "mixed": 0.4}[case["shower"]] * case["energy"]
     crit, rad, inter = 17.006e-2, 39.562, 113.03
     return case["model"] == "ARZ" and crit < had <= crit * float(np.exp(inter / rad)) * 1.0001 and viol["clause"] == "field is finite everywhere, one value per sample"
+
+
+def fx_avz_t0_before_grid(case, viol):
+    return case.get("model") == "AVZ" and viol["clause"].startswith("moves by whole samples") and viol["detail"].get("shower_time") == "to a shower time outside the grid"
